@@ -344,3 +344,90 @@ func (r *e1Run) latestKey(node int, newKey string) string {
 	}
 	return best
 }
+
+// doStaleIndex creates (or drops again) an index through the collection handle the client obtained before any
+// schema change. An index change is no schema change: the active version, the documents and their history stay.
+func (r *e1Run) doStaleIndex(step, node int) {
+	col := r.staleCols[node]
+	if col == nil {
+		return
+	}
+	stale := len(r.nodeKnown[node]) > 1 // the node's schema has changed since the handle was obtained
+	nd := r.nodes[node]
+	before := r.nodeFields(node)
+	known := map[string]bool{}
+	for _, vid := range r.nodeKnown[node] {
+		known[vid] = true
+	}
+	snapBefore, err := r.snapshotForSchema(node, before, known)
+	if err != "" {
+		r.res.violate("C19", "query-failed-before-schema-change", "", step, "node %d: %s", node, err)
+		return
+	}
+	what := "create index through a handle from before the schema changes"
+	var e error
+	if r.staleIx[node] {
+		what = "drop index through a handle from before the schema changes"
+		e = col.DropIndex(nd.reqCtx(), "ix_stale")
+	} else {
+		_, e = col.CreateIndex(nd.reqCtx(), client.IndexCreateRequest{Name: "ix_stale", Fields: []client.IndexedFieldDescription{{Name: "flag"}}})
+	}
+	if e != nil {
+		// refusing a stale handle is fine; it must then have no effect
+		r.res.Stats["stale_handle_index_refused"]++
+	} else {
+		r.staleIx[node] = !r.staleIx[node]
+		r.res.Stats["stale_handle_index_changes"]++
+	}
+	synctest.Wait()
+	nd.TakeUpdates()
+	r.res.logf("step %d n%d %s err=%v", step, node, what, e)
+	acts, ge := nd.DB.GetCollections(nd.reqCtx(), client.CollectionFetchOptions{})
+	if ge != nil {
+		r.res.violate("C19", "unreadable-after-schema-change", "collections", step, "node %d after %s: GetCollections: %v", node, what, ge)
+		return
+	}
+	var ids []string
+	n := 0
+	for _, c := range acts {
+		if c.Name() == "User" {
+			n++
+			ids = append(ids, c.Version().VersionID)
+		}
+	}
+	if n != 1 || ids[0] != r.nodeKnown[node][r.nodeActive[node]] {
+		r.res.violate("C19", "active-version-wrong", "stale-handle-index", step,
+			"node %d after %s: %d active versions %v, want exactly the version [%s]", node, what, n, ids, r.nodeActive[node])
+		return
+	}
+	snapAfter, err := r.snapshotForSchema(node, before, known)
+	if err != "" {
+		r.res.violate("C19", "unreadable-after-schema-change", "stale-handle-index", step, "node %d after %s: %s", node, what, err)
+		return
+	}
+	if snapAfter != snapBefore {
+		r.res.violate("C19", "data-changed-by-schema-change", "stale-handle-index", step, "node %d %s: before=%s after=%s", node, what, short(snapBefore), short(snapAfter))
+		return
+	}
+	r.checkNode(step, node, what)
+	if len(r.res.Viols) > 0 || e != nil || !stale {
+		return
+	}
+	// The index now is described on the handle's version only. One probe: documents must stay writable.
+	// (The run ends here: which indexes the active version maintains is beyond what the model follows.)
+	for slot := 0; slot < r.p.cfg("docs", 1); slot++ {
+		set := r.mset(node, slot)
+		ex := r.expect(set)
+		if !ex.Exists || ex.Deleted {
+			continue
+		}
+		_, errs := nd.GQL(fmt.Sprintf(`mutation { update_User(docID: %q, input: {flag: %v}) { _docID } }`, r.docIDs[slot], step%2 == 0))
+		if len(errs) > 0 {
+			r.res.violate("C19", "unwritable-after-schema-change", "stale-handle-index/"+errClassStr(strings.Join(errs, ";")), step,
+				"node %d after %s (active version [%s]): update of document %d fails: %v", node, what, r.nodeActive[node], slot, errs)
+			return
+		}
+		break
+	}
+	r.stopped = true
+}
